@@ -1554,3 +1554,190 @@ func itoaObj(info *types.Info, id *ast.Ident) string {
 	}
 	return fmt.Sprintf("%p", o)
 }
+
+// E11ConstIndexInLoop: a counted loop over a slice does not pick a fixed later element where the
+// running element is meant.
+func E11ConstIndexInLoop(c *core.Ctx, r *core.Report) {
+	r.Rule("E11.const-index-in-loop", "in a loop `for i := …; i < …len(S)…; …` whose body indexes S with the loop variable, no other access S[k] in the body has a constant index k >= 1 (the first element, S[0], is a legitimate reference point): a fixed later element inside a per-element loop is the per-element value written with the wrong index — e.g. the Bounds array of a stitched PDF gradient function must list stops[i].Offset, not stops[1].Offset, for gradients with more than three stops")
+	loops, sites := 0, 0
+	for _, rel := range modulePkgRels {
+		p := c.Pkg(rel)
+		if p == nil {
+			continue
+		}
+		info := p.TypesInfo
+		for _, fd := range core.AllFuncDecls(p) {
+			if fd.Body == nil || strings.HasSuffix(c.Fset.Position(fd.Pos()).Filename, "_test.go") {
+				continue
+			}
+			fname := p.Types.Name() + "." + core.FuncName(fd)
+			ord := 0
+			ast.Inspect(fd.Body, func(n ast.Node) bool {
+				fs, ok := n.(*ast.ForStmt)
+				if !ok || fs.Cond == nil {
+					return true
+				}
+				be, ok := core.Unparen(fs.Cond).(*ast.BinaryExpr)
+				if !ok || (be.Op != token.LSS && be.Op != token.LEQ) {
+					return true
+				}
+				iv, ok := core.Unparen(be.X).(*ast.Ident)
+				if !ok {
+					return true
+				}
+				var S ast.Expr
+				ast.Inspect(be.Y, func(m ast.Node) bool {
+					if call, ok := m.(*ast.CallExpr); ok && len(call.Args) == 1 {
+						if id, ok := call.Fun.(*ast.Ident); ok && id.Name == "len" {
+							S = call.Args[0]
+						}
+					}
+					return true
+				})
+				if S == nil {
+					return true
+				}
+				sameS := func(e ast.Expr) bool {
+					if types.ExprString(e) != types.ExprString(S) {
+						return false
+					}
+					a, b := core.RootIdent(e), core.RootIdent(S)
+					return a != nil && b != nil && core.ObjOf(info, a) == core.ObjOf(info, b)
+				}
+				usesI := false
+				var consts []*ast.IndexExpr
+				ast.Inspect(fs.Body, func(m ast.Node) bool {
+					ie, ok := m.(*ast.IndexExpr)
+					if !ok || !sameS(ie.X) {
+						return true
+					}
+					mentions := false
+					ast.Inspect(ie.Index, func(k ast.Node) bool {
+						if id, ok := k.(*ast.Ident); ok && core.ObjOf(info, id) == core.ObjOf(info, iv) {
+							mentions = true
+						}
+						return true
+					})
+					if mentions {
+						usesI = true
+					} else if v, ok := core.ConstInt(info, ie.Index); ok && v >= 1 {
+						consts = append(consts, ie)
+					}
+					return true
+				})
+				if !usesI {
+					return true
+				}
+				loops++
+				ord++
+				key := fmt.Sprintf("%s|counted loop #%d over a %s", fname, ord, types.TypeString(info.TypeOf(S), func(*types.Package) string { return "" }))
+				if len(consts) == 0 {
+					r.OK("E11.const-index-in-loop", key, c.Pos(fs.Pos()), "")
+					return true
+				}
+				sites += len(consts)
+				r.Fail("E11.const-index-in-loop", key, c.Pos(consts[0].Pos()), fmt.Sprintf("the loop runs over %s with %s, but its body reads the fixed element `%s`: every iteration uses the same element where the running one is meant", types.ExprString(S), iv.Name, types.ExprString(consts[0])))
+				return true
+			})
+		}
+	}
+	r.Count("E11.counted-loops", loops)
+	r.Floor("E11.counted-loops", 50)
+}
+
+// E11FitStroke: Fit grows every stroked path's bounds by half the stroke width, whatever the bounds are.
+func E11FitStroke(c *core.Ctx, r *core.Report) {
+	r.Rule("E11.fit-stroke", "Canvas.Fit: the bounds of a path layer are grown on all four sides by half the stroke width under the sole condition that the style has a stroke. A further condition on the bounds themselves (Rect.Empty is true for any rectangle of zero width or height) drops exactly horizontal and vertical stroked lines from the fit, and content then lies outside the canvas")
+	p := c.MustPkg("")
+	info := p.TypesInfo
+	fd := core.MustFuncDecl(p, "Canvas.Fit")
+	r.Func("canvas.Canvas.Fit")
+	isHasStroke := func(e ast.Expr) bool {
+		call, ok := core.Unparen(e).(*ast.CallExpr)
+		if !ok {
+			return false
+		}
+		f := core.CalleeOf(info, call)
+		return f != nil && core.QualifiedCallee(f) == core.Module+".Style.HasStroke"
+	}
+	var guards []*ast.IfStmt
+	ast.Inspect(fd.Body, func(n ast.Node) bool {
+		if is, ok := n.(*ast.IfStmt); ok {
+			found := false
+			ast.Inspect(is.Cond, func(m ast.Node) bool {
+				if e, ok := m.(ast.Expr); ok && isHasStroke(e) {
+					found = true
+				}
+				return true
+			})
+			if found {
+				guards = append(guards, is)
+			}
+		}
+		return true
+	})
+	if len(guards) == 0 {
+		r.Fail("E11.fit-stroke", "canvas.Canvas.Fit|stroke expansion", c.Pos(fd.Pos()), "no statement of Fit depends on the style having a stroke: stroked paths are fitted by their centre line")
+		return
+	}
+	for i, g := range guards {
+		key := fmt.Sprintf("canvas.Canvas.Fit|stroke expansion #%d", i+1)
+		if !isHasStroke(g.Cond) {
+			r.Fail("E11.fit-stroke", key+"|condition", c.Pos(g.Pos()), fmt.Sprintf("the stroke expansion is guarded by `%s`, not by the style having a stroke alone: paths for which the extra condition fails (zero-width or zero-height bounds are Empty) are fitted without their stroke or not at all", types.ExprString(g.Cond)))
+		} else {
+			r.OK("E11.fit-stroke", key+"|condition", c.Pos(g.Pos()), "HasStroke() only")
+		}
+		// four sides or Expand, by an amount derived from StrokeWidth / 2
+		sides := map[string]bool{}
+		half := func(e ast.Expr) bool {
+			ok := false
+			ast.Inspect(e, func(m ast.Node) bool {
+				if be, isB := m.(*ast.BinaryExpr); isB && be.Op == token.QUO {
+					if sel, isS := core.Unparen(be.X).(*ast.SelectorExpr); isS && sel.Sel.Name == "StrokeWidth" {
+						if v, isC := core.ConstInt(info, be.Y); isC && v == 2 {
+							ok = true
+						}
+					}
+				}
+				return true
+			})
+			return ok
+		}
+		halfVars := map[types.Object]bool{}
+		for _, s := range g.Body.List {
+			if as, ok := s.(*ast.AssignStmt); ok && as.Tok == token.DEFINE && len(as.Lhs) == 1 && len(as.Rhs) == 1 && half(as.Rhs[0]) {
+				halfVars[core.ObjOf(info, as.Lhs[0].(*ast.Ident))] = true
+			}
+		}
+		isHalf := func(e ast.Expr) bool {
+			if id, ok := core.Unparen(e).(*ast.Ident); ok && halfVars[core.ObjOf(info, id)] {
+				return true
+			}
+			return half(e)
+		}
+		for _, s := range g.Body.List {
+			as, ok := s.(*ast.AssignStmt)
+			if !ok || len(as.Lhs) != 1 || len(as.Rhs) != 1 {
+				continue
+			}
+			if sel, ok := as.Lhs[0].(*ast.SelectorExpr); ok && isHalf(as.Rhs[0]) {
+				switch {
+				case as.Tok == token.SUB_ASSIGN && (sel.Sel.Name == "X0" || sel.Sel.Name == "Y0"):
+					sides[sel.Sel.Name] = true
+				case as.Tok == token.ADD_ASSIGN && (sel.Sel.Name == "X1" || sel.Sel.Name == "Y1"):
+					sides[sel.Sel.Name] = true
+				}
+			}
+			if call, ok := core.Unparen(as.Rhs[0]).(*ast.CallExpr); ok && len(call.Args) == 1 && isHalf(call.Args[0]) {
+				if f := core.CalleeOf(info, call); f != nil && core.QualifiedCallee(f) == core.Module+".Rect.Expand" {
+					sides["X0"], sides["Y0"], sides["X1"], sides["Y1"] = true, true, true, true
+				}
+			}
+		}
+		if len(sides) == 4 {
+			r.OK("E11.fit-stroke", key+"|four sides", c.Pos(g.Pos()), "X0, Y0 lowered and X1, Y1 raised by StrokeWidth/2")
+		} else {
+			r.Fail("E11.fit-stroke", key+"|four sides", c.Pos(g.Pos()), fmt.Sprintf("only %d of the four sides are moved outwards by StrokeWidth/2", len(sides)))
+		}
+	}
+}
